@@ -1,14 +1,16 @@
 # -*- coding: utf-8 -*-
 """C14 - JSON and Markdown output is always well-formed, deterministic and faithful.
 
-Symbolic part (narrow, see DESIGN.md 5 C14): on objects parsed from single-byte windows of accepted vectors the
-traversal the JSON encoder hook runs - Serializable._json_traverse(o, Serializable._json_result) - terminates
-with a value closed under {dict with str keys, list, str, int, float, bool, None} (exactly what makes json.dumps
-succeed and json.loads accept the result), as_markdown() returns str, and both are identical for the object and
-for parse(compose(object)).  json.dumps / json.loads themselves run natively in the differential and replay steps
-(CrossHair's json model does not honour the library's JSONEncoder.default patch).
-Native part: history and hash-seed independence - three serialisation orders x three PYTHONHASHSEED values in fresh
-interpreters must give byte-identical JSON and Markdown for every seed object.
+Symbolic part (see DESIGN.md 10.3): on objects parsed from single-byte windows of accepted vectors, built by the
+real constructors, or holding a set filled in two orders, the recursion json.dumps performs - JSON-native values as
+they are, everything else through the encoder hook the library installs, applied again to its result (_tree) -
+ends in a value closed under {dict with str keys, list, str, int, float, bool, None}, the Markdown rendering is a
+str, and both are identical for the object and for parse(compose(object)).  json.dumps / json.loads themselves run
+natively in the differential and replay steps (CrossHair's json model does not honour the library's
+JSONEncoder.default patch) and are compared with _tree there.
+Native part: every enum member; all member triples of the set-valued fields; history and hash-seed independence -
+three serialisation orders x four PYTHONHASHSEED values in fresh interpreters, with and without class-level text
+encoders, must give byte-identical JSON and Markdown for every seed object.
 """
 import json
 import os
@@ -94,7 +96,7 @@ def serialise(val: int) -> bool:
     except NotRenderable as exc:
         api.note('json.dumps cannot render the object: %s' % exc)
         return False
-    markdown = obj.as_markdown() if hasattr(obj, 'as_markdown') else None
+    markdown = _markdown(obj)
     if markdown is not None and not isinstance(markdown, str):
         api.note('as_markdown() returns a %s, not text' % type(markdown).__name__)
         return False
@@ -112,7 +114,7 @@ def serialise(val: int) -> bool:
     if _plain(_tree(again)) != _plain(tree):
         api.note('JSON differs after compose + parse', _plain(tree), _plain(_tree(again)))
         return False
-    if markdown is not None and again.as_markdown() != markdown:
+    if _markdown(again) != markdown:
         api.note('Markdown differs after compose + parse')
         return False
     return True
@@ -193,6 +195,78 @@ def _set_valued():
         return members, lambda value: mysql.MySQLHandshakeV10(capabilities=value, states=set(), **base)
     members = list(mysql.MySQLStatusFlag)
     return members, lambda value: mysql.MySQLHandshakeV10(capabilities=set(), states=value, **base)
+
+
+def _value_kinds(val, object_keys=False):
+    """an application report object (plain __dict__, like the analysis results built on this library) holding every
+    kind of value the renderers promise to handle, as attribute value, list element, mapping value and mapping key"""
+    import datetime  # pylint: disable=import-outside-toplevel
+    import ipaddress  # pylint: disable=import-outside-toplevel
+    import urllib3  # pylint: disable=import-outside-toplevel
+    from cryptodatahub.tls.algorithm import TlsNamedCurve  # pylint: disable=import-outside-toplevel
+    from cryptodatahub.tls.version import TlsVersion  # pylint: disable=import-outside-toplevel
+    from cryptoparser.tls.subprotocol import TlsAlertLevel  # pylint: disable=import-outside-toplevel
+    from cryptoparser.tls.version import TlsProtocolVersion  # pylint: disable=import-outside-toplevel
+    raw = bytes([val, 0xfe])
+    version = TlsProtocolVersion(TlsVersion.TLS1_2)
+    instant = datetime.datetime(2020, 1, 2, 3, 4, 5)
+    # floats, text and durations derived from the symbolic byte multiply the paths (their str() is realised value by
+    # value): they depend on the byte only in the native runs
+    dependent = val if object_keys else 65
+    values = [raw, bytearray(raw), val, dependent / 2.0, val == 0, None, chr(dependent) + u'\xe9', [raw, [val, None]],
+              (raw, val), version, instant, instant.date(), datetime.timedelta(seconds=dependent),
+              ipaddress.ip_network(u'192.0.2.0/24'),
+              urllib3.util.parse_url('https://example.com/x'), TlsAlertLevel.FATAL, TlsNamedCurve.SECP256R1, [], {}]
+    report = _Holder(values, {'text': raw})
+    report.by_bytes = {raw: values[:4]}
+    report.by_int = {val: raw, -1: None}
+    report.by_tuple = {(dependent, 1): instant}
+    # mappings with concrete keys are real dicts (CrossHair's dict model looks keys up by its own equality search)
+    from crosshair.tracers import NoTracing  # pylint: disable=import-outside-toplevel
+    with NoTracing():
+        if object_keys:
+            # CrossHair's OrderedDict model does not find keys with a custom __eq__ / __hash__ again: native runs only
+            report.by_object = {version: [raw, None]}
+        report.by_date = {instant.date(): raw}
+        report.by_enum = {TlsAlertLevel.FATAL: raw, TlsAlertLevel.WARNING: val}
+        report.by_none = {None: val}
+    report.empty = _Holder([], {})
+    return report
+
+
+def value_kinds(val: int) -> bool:
+    """post: _"""
+    if not P.get('LO', 0) <= val < P.get('HI', 256):
+        return True
+    report = _value_kinds(val)
+    reach()
+    return _render_checks(report) is not None
+
+
+def replay_value_kinds(val):
+    P['NATIVE_JSON'] = True
+    return value_kinds(val)
+
+
+def value_kinds_native():
+    """the same report object for every content byte, with library objects as mapping keys too, natively"""
+    problems = []
+    P['NATIVE_JSON'] = True
+    for val in range(256):
+        del api.NOTES[:]
+        try:
+            if _render_checks(_value_kinds(val, object_keys=True)) is None:
+                problems.append('report object with content byte %d: %s' % (val, '; '.join(api.NOTES)))
+        except Exception as exc:  # pylint: disable=broad-except
+            problems.append('report object with content byte %d: %s: %s' % (val, type(exc).__name__, str(exc)[:160]))
+        if len(problems) > 3:
+            break
+    P.pop('NATIVE_JSON', None)
+    return problems
+
+
+def sample_value_kinds(rng, kwargs):
+    return {'val': rng.randrange(P.get('LO', 0), P.get('HI', 256))}
 
 
 def _native_sets(picked):
@@ -305,12 +379,33 @@ def replay_serialise(val):
 WORKER = r'''
 import hashlib, json, random, sys
 sys.path.insert(0, sys.argv[1])
-from symcheck.harness import registry
+from symcheck.harness import registry, c14_serial
 order, out = sys.argv[2], {}
 objects = []
 for cls, _ in registry.seeded_classes():
     for data, obj in registry.accepted_seeds(cls)[:2]:
         objects.append((registry.class_name(cls) + ':%d:' % len(objects) + data.hex()[:24], obj))
+if len(sys.argv) > 3 and sys.argv[3] == 'encoders':
+    # class-level encoder state: every second Serializable class gets a text encoder of its own that marks its
+    # output; the others inherit Serializable's.  A swap that is not undone, or undone on the wrong class, changes
+    # what later objects look like - and that depends on the order.
+    from cryptoparser.common.base import Serializable, SerializableTextEncoder
+    class Marking(SerializableTextEncoder):
+        def __init__(self, tag):
+            self.tag = tag
+        def __call__(self, obj, level):
+            multiline, text = SerializableTextEncoder.__call__(self, obj, level)
+            return multiline, text + self.tag
+    def subclasses(cls, found):
+        for sub in cls.__subclasses__():
+            if sub not in found:
+                found.add(sub)
+                subclasses(sub, found)
+        return found
+    named = sorted(subclasses(Serializable, set()), key=lambda item: (item.__module__, item.__qualname__))
+    for index, cls in enumerate(named):
+        if index % 2 == 0 and 'post_text_encoder' not in cls.__dict__:
+            cls.post_text_encoder = Marking('<%d>' % index)
 if order == 'reverse':
     objects.reverse()
 elif order == 'shuffle':
@@ -319,7 +414,7 @@ for name, obj in objects:
     pair = ['json', 'markdown'] if order != 'reverse' else ['markdown', 'json']
     for kind in pair:
         try:
-            text = json.dumps(obj) if kind == 'json' else (obj.as_markdown() if hasattr(obj, 'as_markdown') else '')
+            text = json.dumps(obj) if kind == 'json' else c14_serial._markdown(obj)
             if kind == 'json':
                 json.loads(text)
             if not isinstance(text, str):
@@ -335,28 +430,31 @@ def orders_and_hash_seeds():
     """every seed object serialised in three orders under three hash seeds: identical, well-formed output"""
     problems = []
     verif = registry.VERIF
-    runs = {}
-    for order, hashseed in (('forward', '0'), ('reverse', '1'), ('shuffle', '2'), ('forward', '3')):
-        env = dict(os.environ, PYTHONHASHSEED=hashseed)
-        proc = subprocess.run([sys.executable, '-c', WORKER, verif, order], capture_output=True, text=True, env=env,
-                              timeout=900, check=False)
-        try:
-            runs[(order, hashseed)] = json.loads(proc.stdout.strip().splitlines()[-1])
-        except (IndexError, ValueError):
-            problems.append('serialisation worker (%s, hash seed %s) failed: %s' % (order, hashseed, proc.stderr[-300:]))
-    if len(runs) < 2:
-        return problems
-    keys = list(runs)
-    base = runs[keys[0]]
-    for name, text in sorted(base.items()):
-        if text.startswith(('EXCEPTION', 'NOT-A-STR')):
-            problems.append('%s: %s' % (name, text[:200]))
-            continue
-        for other in keys[1:]:
-            if runs[other].get(name) != text:
-                problems.append('%s differs between (%s, PYTHONHASHSEED=%s) and (%s, PYTHONHASHSEED=%s)' % (
-                    (name,) + keys[0] + other))
-                break
+    for mode in ('plain', 'encoders'):
+        runs = {}
+        for order, hashseed in (('forward', '0'), ('reverse', '1'), ('shuffle', '2'), ('forward', '3')):
+            env = dict(os.environ, PYTHONHASHSEED=hashseed)
+            proc = subprocess.run([sys.executable, '-c', WORKER, verif, order, mode], capture_output=True, text=True,
+                                  env=env, timeout=900, check=False)
+            try:
+                runs[(order, hashseed)] = json.loads(proc.stdout.strip().splitlines()[-1])
+            except (IndexError, ValueError):
+                problems.append('serialisation worker (%s, hash seed %s, %s) failed: %s' % (order, hashseed, mode,
+                                                                                           proc.stderr[-300:]))
+        if len(runs) < 2:
+            return problems
+        keys = list(runs)
+        base = runs[keys[0]]
+        for name, text in sorted(base.items()):
+            if text.startswith(('EXCEPTION', 'NOT-A-STR')):
+                problems.append('%s: %s' % (name, text[:200]))
+                continue
+            for other in keys[1:]:
+                if runs[other].get(name) != text:
+                    problems.append('%s differs between (%s, PYTHONHASHSEED=%s) and (%s, PYTHONHASHSEED=%s)%s' % (
+                        (name,) + keys[0] + other + (' with class-level text encoders installed'
+                                                     if mode == 'encoders' else '',)))
+                    break
     return problems[:60]
 
 
@@ -380,7 +478,7 @@ def shards(tier, seed):
             continue
         short = name.replace('cryptoparser.', '')
         text = windows.is_text_class(name)
-        positions = list(range(min(len(data), 40))) if thorough else [rng.randrange(len(data))]
+        positions = windows.thorough_positions(len(data), rng) if thorough else [rng.randrange(len(data))]
         for pos in positions:
             ser.append(Shard(MOD, 'serialise', 'ser/%s/p%d' % (short, pos),
                              {'CLASS': name, 'SEED': data.hex(), 'POS': pos,
@@ -424,6 +522,17 @@ def shards(tier, seed):
                              bounds='MySQL handshake whose set-valued field %s holds members %d, %d and any third one, '
                                     'filled in two insertion orders: equal objects, identical JSON and Markdown' % (
                                         field, j, k)))
+    for low in (range(0, 256, 16) if thorough else (0, 16 * rng.randrange(1, 8), 16 * rng.randrange(8, 16))):
+        out.append(Shard(MOD, 'value_kinds', 'value_kinds/%d' % low, {'LO': low, 'HI': low + 16}, 300 if thorough else 60,
+                         group='value_kinds',
+                         bounds='a report object holding every kind of value (bytes, bytearray, int, float, bool, None, '
+                                'non-ASCII text, nested list, tuple, library object, datetime, date, timedelta, IP '
+                                'network, URL, enum members, empty containers) as attribute, list element, mapping value '
+                                'and mapping key, content byte %d..%d symbolic: JSON closed, Markdown text' % (
+                                    low, low + 15)))
+    out.append(Shard(MOD, 'value_kinds_native', 'value_kinds_native', {}, kind='concrete',
+                     bounds='the report object of value_kinds for every content byte, library objects as mapping keys '
+                            'included, through the real json.dumps / json.loads (natively)'))
     out.append(Shard(MOD, 'set_orders_native', 'set_orders_native', {}, kind='concrete',
                      bounds='every ordered triple of MySQLCapability / MySQLStatusFlag members as the set-valued field '
                             '(natively, real json.dumps)'))
@@ -433,5 +542,6 @@ def shards(tier, seed):
                             'alone, inside a list and as a dict key, and the Markdown rendering (natively)'))
     out.append(Shard(MOD, 'orders_and_hash_seeds', 'orders_and_hash_seeds', {}, kind='concrete',
                      bounds='up to 2 accepted vectors of every seeded class, serialised (real json.dumps/json.loads, '
-                            'as_markdown) in 3 orders under 4 PYTHONHASHSEED values in fresh interpreters'))
+                            'as_markdown) in 3 orders under 4 PYTHONHASHSEED values in fresh interpreters, once as '
+                            'is and once with marking text encoders installed on every second Serializable class'))
     return out
